@@ -468,6 +468,8 @@ class Corr:
         self.exhaustive = False
         self.notes = []
         self.outside = 0              # differences on requests outside the property's domain (not a broken tie)
+        self.compared_inside = 0      # requests compared inside / outside the property's domain
+        self.compared_outside = 0
         self.outside_samples = []
 
     def count(self, key, bucket=None):
@@ -487,6 +489,12 @@ class Corr:
         out-of-bounds access, NULL call, ...); whatever the current code does instead refines it.  Both kinds are counted
         and sampled into the evidence (`outside_domain_differences`)."""
         for r, a, b in zip(reqs, impl, model):
+            if in_domain is not None or model_ub is not None:
+                inside = (in_domain is None or in_domain(r)) and not (model_ub is not None and model_ub(b))
+                self.compared_inside += inside
+                self.compared_outside += not inside
+            else:
+                self.compared_inside += 1
             if a == b:
                 continue
             if (in_domain is not None and not in_domain(r)) or (model_ub is not None and model_ub(b)):
@@ -632,7 +640,9 @@ def proof_coverage(pres, corr, extra=None):
             "harness_errors": corr.harness_errors,
             "exhaustive": corr.exhaustive,
             "notes": corr.notes,
-            "outside_domain_differences": {"count": corr.outside, "samples": corr.outside_samples},
+            "outside_domain_differences": {"count": corr.outside, "samples": corr.outside_samples,
+                                           "requests_compared_inside_domain": corr.compared_inside,
+                                           "requests_compared_outside_domain": corr.compared_outside},
         })
     if extra:
         cov.update(extra)
